@@ -110,6 +110,23 @@ def pseg (p : Piece) : PSeg := ⟨p.down, p.peer.isSome, p.segId, p.seg.seg.ts, 
 
 end Piece
 
+/-! ### reading the traversed interfaces off the hop fields of a data-plane segment -/
+
+/-- interface ids of one hop field in construction order (`0` names no interface) -/
+def hopIds (dropIngress : Bool) (h : HopF) : List Nat :=
+  (if h.ingress ≠ 0 ∧ dropIngress = false then [h.ingress] else []) ++ (if h.egress ≠ 0 then [h.egress] else [])
+
+/-- hop fields given in construction order: the ConsIngress of the first hop field is where the
+segment is entered / left (source, destination, segment change or shortcut) and is traversed only when
+the segment is a peering segment (the first hop field is then the peering hop field) -/
+def consIds (peering : Bool) : List HopF → List Nat
+  | [] => []
+  | h :: rest => hopIds (!peering) h ++ rest.flatMap (hopIds false)
+
+/-- interface ids a data-plane segment traverses, in travel order -/
+def segIds (s : PSeg) : List Nat :=
+  if s.consDir then consIds s.peering s.hops else (consIds s.peering s.hops.reverse).reverse
+
 /-- the segment-kind rule (`true` = core) -/
 def kindsOk : List Bool → Bool
   | [_] => true
